@@ -81,7 +81,14 @@ def main(tier, seed, replay=None):
             c["ops"] = states.observe_at(rng, c, nsets=2) + [["into_seq"], ["observe"], ["jac_quiet"]]
             seq = copy.deepcopy(c)
             seq["ctor"] = SEQ_OF[ctor]
-        for t in ([1, 2, 3, 4] if force3 else threads if i % 4 == 0 else rng.sample(threads, 2)):
+        many = 4 <= i < 10
+        if many:
+            # five to seven nonlinear parameters: column blocks of any small size leave a remainder
+            c = gen_problem(rng, ctor=ctor, quant=None, family=["p5", "p6", "p7"][i % 3], weights=["pos", "none"][i % 2])
+            c["ops"] = states.observe_at(rng, c, nsets=2) + [["into_seq"], ["observe"], ["jac_quiet"]]
+            seq = copy.deepcopy(c)
+            seq["ctor"] = SEQ_OF[ctor]
+        for t in ([1, 2, 3, 4] if force3 else [1, 2, 3, 4, 16] if many else threads if i % 4 == 0 else rng.sample(threads, 2)):
             for jitter in (False, True):
                 p = copy.deepcopy(c)
                 p["threads"] = t
